@@ -287,7 +287,11 @@ func dischargeAll(items []workItem, timeoutMs, workers int) {
 			}
 			if u.o.Status != "unsat" && p.Status == "unsat" {
 				p.Status, p.Solver, p.Model = u.o.Status, u.o.Solver, u.o.Model
-				p.Output = fmt.Sprintf("sub-goal %d of %d:\n%s", u.k+1, len(us), u.o.Output)
+				lab := ""
+				if u.k < len(p.SubLabels) {
+					lab = " (" + p.SubLabels[u.k] + ")"
+				}
+				p.Output = fmt.Sprintf("sub-goal %d of %d%s:\n%s", u.k+1, len(us), lab, u.o.Output)
 			}
 		}
 	}
